@@ -47,6 +47,10 @@ pub struct ServerState {
     /// C17: how the mock is currently configured, per app id
     pub mock_cfg: std::collections::BTreeMap<String, String>,
     pub mock_cfg_epoch: u32,
+    pub mock_forced_etag: bool,
+    pub mock_disable_updates: bool,
+    /// (request body, key id, nonce) of the previous CUP exchange handled by the mock
+    pub prev_exchange: Option<(Vec<u8>, u64, [u8; 32])>,
 }
 
 // ---------------------------------------------------------------- CUP, written from the protocol description
